@@ -329,7 +329,11 @@ def run(p, report, tier):
         for w in [n for n in ast.walk(f.node) if isinstance(n, ast.While)]:
             nwhile += 1
             cls, why = while_class(w, f.node)
-            report.add("R7.4", f.qual, f"`{norm_stmt(w, 70)}`", f"{f.file}:{w.lineno}", cls is not None, detail=(cls + ": " if cls else "") + why)
+            # keyed by the owning class / module (not the method): moving the loop between methods of
+            # one class neither hides nor re-reports it
+            owner = (f.cls if isinstance(f.cls, str) else getattr(f.cls, "name", None)) or f.module.name.split(".")[-1]
+            report.add("R7.4", owner, f"`{norm_stmt(w, 70)}`", f"{f.file}:{w.lineno}", cls is not None,
+                       detail=f"in {f.qual}: " + (cls + ": " if cls else "") + why)
     for f in (sq, q, g, sa.methods.get("_n_to_assign_annotators"), ie):
         if f is None:
             continue
